@@ -46,13 +46,15 @@ def families(tier):
             ('branches2', execlib.fam_branches(2, range(8))),
             ('checkpoint-context', execlib.fam_checkpoint_context()),
             ('all-skip', fam_allskip()),
-            ('repeat-options', fam_repeat_options())]
+            ('repeat-options', fam_repeat_options()),
+            ('monitored', execlib.fam_monitored())]
   return [('ladder', execlib.fam_ladder(tier)),
           ('structure4', execlib.fam_structure(4, 'PQUG', 'CFXES')),
           ('branches3', execlib.fam_branches(3, range(8))),
           ('checkpoint-context', execlib.fam_checkpoint_context()),
           ('all-skip', fam_allskip()),
           ('repeat-options', fam_repeat_options()),
+          ('monitored', execlib.fam_monitored()),
           ('options', execlib.fam_options(tier)),
           ('table', execlib.fam_table(tier))]
 
